@@ -135,6 +135,16 @@ def rewrite_constants(prog: Program) -> Set[str]:
             for t in n.targets:
                 if isinstance(t, ast.Subscript) and isinstance(t.slice, ast.Constant) and t.slice.value == 'method' and isinstance(n.value, ast.Constant):
                     out.add(n.value.value)
+            # merged copies: opts | {'method': c} / dict(opts, method=c) / {**opts, 'method': c}
+            v = n.value
+            cands = []
+            if isinstance(v, ast.BinOp) and isinstance(v.op, ast.BitOr) and isinstance(v.right, ast.Dict):
+                cands = [val for k, val in zip(v.right.keys, v.right.values) if isinstance(k, ast.Constant) and k.value == 'method']
+            elif isinstance(v, ast.Call) and callee_last(v) == 'dict':
+                cands = [k.value for k in v.keywords if k.arg == 'method']
+            elif isinstance(v, ast.Dict):
+                cands = [val for k, val in zip(v.keys, v.values) if isinstance(k, ast.Constant) and k.value == 'method']
+            out |= {c.value for c in cands if isinstance(c, ast.Constant) and isinstance(c.value, str)}
     return out
 
 
@@ -151,6 +161,22 @@ def check_rewrites(rep: Report, prog: Program) -> None:
             for t in n.targets:
                 if isinstance(t, ast.Subscript) and isinstance(t.slice, ast.Constant) and t.slice.value == 'method':
                     stores.append(n)
+    # the same rewrite written as a merged copy: X = opts | {'method': c} / dict(opts, method=c) / {**opts, 'method': c}
+    import copy as _copy
+    for n in own_nodes(f.node):
+        if isinstance(n, ast.Assign) and len(n.targets) == 1 and isinstance(n.targets[0], ast.Name):
+            v = n.value; c = None
+            if isinstance(v, ast.BinOp) and isinstance(v.op, ast.BitOr) and isinstance(v.right, ast.Dict):
+                c = next((val for k, val in zip(v.right.keys, v.right.values) if isinstance(k, ast.Constant) and k.value == 'method'), None)
+            elif isinstance(v, ast.Call) and callee_last(v) == 'dict' and v.args:
+                c = next((k.value for k in v.keywords if k.arg == 'method'), None)
+            elif isinstance(v, ast.Dict) and any(k is None for k in v.keys):
+                c = next((val for k, val in zip(v.keys, v.values) if isinstance(k, ast.Constant) and k.value == 'method'), None)
+            if c is not None:
+                fake = ast.copy_location(ast.Assign(targets=[ast.Subscript(value=ast.Name(id=n.targets[0].id, ctx=ast.Load()), slice=ast.Constant(value='method'), ctx=ast.Store())], value=c), n)
+                ast.fix_missing_locations(fake)
+                fake._sa_real = n
+                stores.append(fake)
     rep.floor(rule, len(stores), 2)
     # the counter of in-component edges: a name V with  V = max(V, n)  (running maximum)
     maxvars = set()
@@ -174,7 +200,7 @@ def check_rewrites(rep: Report, prog: Program) -> None:
                    "a per-SCC method rewrite must be the constant 'one-step' or 'linear' (never an iterative method the caller did not ask for)")
             continue
         want = 0 if v.value == 'one-step' else 1
-        node = cfg.node_of(st)
+        node = cfg.node_of(getattr(st, '_sa_real', st))
         # evaluate the guards with the running maximum set to 0..3
         if len(maxvars) != 1:
             rep.error(f"{rule}: cannot identify the in-component edge counter (running maximum) in sum_products: {sorted(maxvars)}")
@@ -206,7 +232,7 @@ def check_rewrites(rep: Report, prog: Program) -> None:
     for st in stores:
         if not (isinstance(st.value, ast.Constant) and st.value.value == 'linear'):
             continue
-        node = cfg.node_of(st)
+        node = cfg.node_of(getattr(st, '_sa_real', st))
         sel = None
         for n, nd in cfg.nodes.items():
             if nd.kind == 'test':
